@@ -170,6 +170,18 @@ def bloom_guard_prefix(prog, rep, rid, ctx, fname):
         if early:
             rep.bad(rid, where, "allocation before the similarity test", "work happens before the similarity test", early[0].where())
             return False
+        # after the two compatibility tests the result may depend on the cells only
+        for c in p.conds[2:]:
+            a = c.atom
+            if a[0] == "loop0" or c.loops:
+                continue
+            leaves = [n for n in walk(a) if n[0] in ("f", "p", "sub", "ret", "call", "it", "ix")]
+            if all(n[0] == "hv" or n[0] == "c" or n[0] in ("cmp", "un", "nary", "bin", "and", "or") for n in walk(a)) and not leaves:
+                continue
+            rep.bad(rid, where, f"extra decision {nshow(a)}",
+                    f"after the compatibility tests {fname} also branches on {nshow(a)}: the result no longer depends on the cells alone "
+                    "(e.g. a shortcut trusting a counter)", f.where(c.node))
+            return False
         if not sim:
             if p.exit[0] != "return" or p.exit[1] != C(None) or any(e.kind in ("new", "setelem") for e in p.events):
                 rep.bad(rid, where, "incompatible operands do not return None",
@@ -234,6 +246,12 @@ def combine_rule(prog, rep, rid, ctx, fname, op):
     if not stores:
         rep.bad(rid, where, "no cell store", f"{fname} stores nothing into the result's cells", f.where())
         return
+    for p in ps:
+        if p.exit[0] == "return" and p.exit[1] != C(None):
+            if not any(e.kind == "setelem" and outer_field(e.cont) == "_bloom" for e in p.events) \
+                    and not any(c.atom[0] == "loop0" for c in p.conds) and op != "+":
+                rep.bad(rid, where, "result returned without combining", f"a path of {fname} returns a result without running the cell loop", f.where(p.exit[2]))
+                return
     ondisk = ctx == "BloomFilterOnDisk"
     good = 0
     for p, e in stores:
